@@ -12,7 +12,8 @@ PL = {"lds": "PLds", "rds": "PRds", "cds": "PCds", "eds": "PEds", "nds": "PNds"}
 def hcm(stamp, tokens=None, inline=False, typed_struct=False, router_first=False):
     filters = []
     if router_first:
-        filters.append(C("HFUnknownUrl"))
+        # another http filter ahead of the rate limit: by its own type url, or as the TypedStruct an EnvoyFilter patch inserts
+        filters.append(C("HFUnknownUrl") if stamp % 2 == 0 else C("HFTypedStruct", None, "value-without-key", "foreign-inner"))
     if tokens is not None:
         if typed_struct:
             filters.append(C("HFTypedStruct", Some(C("TBStruct", Some(C("TVNum", tokens * 3 + 100)), Some(C("TVNum", tokens))))))
